@@ -67,6 +67,7 @@ Expose(inv) == inv \/ (PrintT(<<"REPLAY", Behaviour>>) /\ FALSE)
 XNotificationParsable == Expose(NotificationParsable)
 XInterruptedWriteNeverBlocks == Expose(InterruptedWriteNeverBlocks)
 XDeltasBoundedOnDisk == Expose(DeltasBoundedOnDisk)
+XDeltasNeverExceedMaxNr == Expose(DeltasNeverExceedMaxNrOnDisk)
 XClientCatchesUp == Expose(ClientCatchesUp)
 XNotificationRefsExist == Expose(NotificationRefsExist)
 XRsyncEq == Expose(wres = "ok" /\ Idle => rsCur.exists /\ rsCur.objs = CurAll(cur))
